@@ -7,7 +7,7 @@ from vlib import zlit, blist, pairlist, optlit, listlit, blit
 
 PROP = 'C13'
 REQUIRES = ['Edges.Model']
-RULE = ('edges: every binary stream of length <= L (quick 6-7, thorough 9) meeting the run-length precondition x debounce 1..3 x '
+RULE = ('edges: every binary stream of length <= L (quick 6-7 - at length 7 every second chunking -, thorough 9) meeting the run-length precondition x debounce 1..3 x '
         'both initial states x EVERY chunking (all compositions of the length, so every boundary 0..debounce samples before/after an '
         'edge and chunks of length 1), detect mode / input form (plain 1-D, plain (1,n), PipelineData (1,n), PipelineData 1-D) / dtype / '
         'first index rotating; low-high-low-high streams with runs debounce+1..debounce+2, debounce 1..5, with the chunk boundaries '
@@ -19,6 +19,13 @@ RULE = ('edges: every binary stream of length <= L (quick 6-7, thorough 9) meeti
         'blocks. Time-based get_range / get_latest at fs 25000, 44100, 100000, 195312.5 with bounds k/fs around events and block limits, '
         'k chosen (by search) so that (k/fs)*fs != k in binary64, on blocks around / starting at / ending at such k and on merged blocks; '
         'the model is asked the sample query at the bounds the code\'s int(round(t*fs)) gives, the oracle at k. '
+        'Kinds rotated over all edges cases: min_samples int/np.int64/np.int32; initial_state False/0/0.0/np.bool_/np.uint8 and True/1/2/1.5/-1; '
+        'fs argument float/int/np.float64, rates 25/1000/48000/195312.5; target list.append / coroutine.send / function; dtypes bool, int (high 1..3), '
+        'float, uint8 (255), int8 (-1), float with nan/inf/denormal highs and -0.0 lows; fresh / re-used-and-overwritten / read-only caller buffers '
+        '(input must stay intact); first index 0, 7, -1, -5, 1000003, 2**40 as int or np.int64; empty first chunk and all-empty input for every form. '
+        'Events built from tuples / lists / DataFrame / DataFrame with a stale ts column; bounds int / np.int64 / float; every answer is '
+        'overwritten by the caller and the query repeated (aliasing); range_samples, t0, rate(), str checked on every block; combine_events on '
+        'lists and tuples, int-vs-float equal rates, rates one ulp apart; off-grid times (k+d)/fs incl. exact ties; negative sample numbers. '
         'Non-trivial: at least one event reported or selected. Distinct = distinct case dictionaries.')
 TRUSTED = ['harness/C13.py (generators; conversion of Events objects to integer tuples; brute-force transition oracle)',
            'numpy/pandas primitives used by edges/Events (concatenate, boolean cast, DataFrame filtering and concat) as modelled '
@@ -88,18 +95,36 @@ def split(x, comp):
 
 
 FORMS = ['plain', 'pd', 'plain2d', 'pd', 'plain', 'pd1d']
-DTYPES = ['bool', 'int', 'float']
+DTYPES = ['bool', 'int', 'float', 'uint8', 'int8', 'floatodd', 'bool']
 MODES = ['both', 'both', 'rising', 'falling']
-FIRSTS = [0, 7, 1000003, -5]
+FIRSTS = [0, 7, 1000003, -5, -1, 2 ** 40]
+FSS = [1000, 25, 48000, 195312.5]
+MKINDS = ['int', 'np64', 'int', 'np32']                 # type of min_samples
+LOWS = ['False', '0', '0.0', 'npbool', 'npu8']            # kinds of a low initial_state
+HIGHS = ['True', '1', '2', '1.5', 'npbool', '-1']         # kinds of a high initial_state (any non-zero value)
+FSKINDS = ['float', 'int', 'np64']                      # type of the fs argument (plain input)
+TARGETS = ['append', 'send', 'func', 'append']          # list.append, a coroutine's .send, a plain function
+BUFS = ['fresh', 'reuse', 'fresh', 'readonly', 'reuse'] # caller re-uses (and overwrites) one buffer / read-only arrays
+S0KINDS = ['int', 'np64']
+
+
+def fskey(fs):
+    """rates go to the model as the integer 2 * fs (195312.5 is a legal rate)"""
+    assert float(fs * 2) == int(fs * 2)
+    return int(fs * 2)
 
 
 def _edge_case(i, m, init, x, comp, **kw):
-    c = {'k': 'edges', 'm': m, 'init': int(init), 'fs': [1000, 25, 48000][i % 3],
-         'detect': MODES[i % 4], 'form': FORMS[i % 6], 'first': FIRSTS[(i // 2) % 4],
-         'dtype': DTYPES[(i // 3) % 3], 'chunks': split([int(b) for b in x], comp)}
+    c = {'k': 'edges', 'm': m, 'init': int(init), 'fs': FSS[i % 4],
+         'detect': MODES[i % 4], 'form': FORMS[i % 6], 'first': FIRSTS[(i // 2) % 6],
+         'dtype': DTYPES[(i // 3) % 7], 'chunks': split([int(b) for b in x], comp),
+         'mk': MKINDS[(i // 5) % 4], 'ik': (i // 7) % 6, 'fsk': FSKINDS[(i // 4) % 3],
+         'tgt': TARGETS[(i // 3) % 4], 'buf': BUFS[(i // 2) % 5], 's0k': S0KINDS[(i // 11) % 2]}
     c.update(kw)
     if not c['form'].startswith('pd'):
         c['first'] = 0
+    if c['mk'] == 'np32' and abs(c['first']) >= 2 ** 31:
+        c['mk'] = 'np64'      # NumPy 2: python-int s0 beyond int32 minus np.int32(min_samples) raises OverflowError (caller's type choice)
     return c
 
 
@@ -122,6 +147,23 @@ def cases(tier, rng):
                'dtype': 'int', 'chunks': base}
         yield {'k': 'edges', 'm': 2, 'init': 1, 'fs': 1000, 'detect': 'both', 'form': form, 'first': 3 if form == 'pd' else 0,
                'dtype': 'int', 'chunks': []}
+    yield {'k': 'edges', 'm': 2, 'init': 0, 'fs': 1000, 'detect': 'both', 'form': 'pd', 'first': 7,
+           'dtype': 'int', 'chunks': base, 'glitch': {'idx': 1, 'kind': 'fs_ulp'}}
+    yield {'k': 'ndim', 'shape': [2, 4]}
+    yield {'k': 'ndim', 'shape': [1, 1, 4]}
+    yield {'k': 'nofs'}
+    # --- empty first chunk / only empty chunks / single samples, every input form and first index
+    for j, chunks in enumerate(([[], [0, 1, 1, 1], [], [1, 0, 0, 0]], [[], []], [[1]], [[], [1], [], [1], [1], [0]],
+                                [[0], [], [1, 1, 1, 1]])):
+        for form in ('plain', 'plain2d', 'pd', 'pd1d'):
+            for first in (0, -3, -1):
+                for init in (0, 1):
+                    i += 1
+                    c = _edge_case(i, 1 + (i % 3), init, [], [], form=form, first=first)
+                    c['chunks'] = chunks
+                    if not form.startswith('pd'):
+                        c['first'] = 0
+                    yield c
     # --- exhaustive: clean streams x all chunkings
     for m in (1, 2, 3):
         L = (6 if m == 1 else 7) if quick else 9
@@ -130,7 +172,9 @@ def cases(tier, rng):
                 for init in (0, 1):
                     if not clean(m, init, x):
                         continue
-                    for comp in compositions(n):
+                    for ci, comp in enumerate(compositions(n)):
+                        if quick and n == 7 and (ci + sum(x) + init) % 2:
+                            continue                  # quick: every second chunking of the longest streams
                         i += 1
                         yield _edge_case(i, m, init, x, comp)
     # --- boundary sweep around one edge of a low-high-low-high stream
@@ -177,21 +221,31 @@ def cases(tier, rng):
         [[[0, 9], [1, 4], [0, 4], [1, 6]], 3, 7, 25],
         [[], 0, 5, 1000],
     ]
+    blocks.append([[[1, -4], [0, -3], [1, -1], [0, 0], [1, 1]], -4, 2, 1000])      # a block over negative samples
+    q = 0
     for B in blocks:
         for a in range(B[1] - 2, B[2] + 3):
             for b in range(B[1] - 2, B[2] + 3):
-                yield {'k': 'range', 'block': B, 'a': a, 'b': b}
+                q += 1
+                yield {'k': 'range', 'block': B, 'a': a, 'b': b, 'ctor': CTORS[q % 4], 'bk': BKINDS[(q // 4) % 3]}
         for lb in range(-(B[2] - B[1]) - 2, 3):
             for ub in (None, 0, -1, -3, 1):
-                yield {'k': 'latest', 'block': B, 'lb': lb, 'ub': ub}
+                q += 1
+                yield {'k': 'latest', 'block': B, 'lb': lb, 'ub': ub, 'ctor': CTORS[q % 4], 'bk': BKINDS[(q // 4) % 3]}
     for _ in range(200 if quick else 4000):
         B = _rand_block(rng, rng.randint(-20, 50), rng.randint(0, 30), rng.choice([1000, 25]))
         a = rng.randint(B[1] - 3, B[2] + 3)
         b = rng.randint(B[1] - 3, B[2] + 3)
-        yield {'k': 'range', 'block': B, 'a': a, 'b': b}
-        yield {'k': 'latest', 'block': B, 'lb': a - B[2], 'ub': b - B[2]}
+        q += 1
+        yield {'k': 'range', 'block': B, 'a': a, 'b': b, 'ctor': CTORS[q % 4], 'bk': BKINDS[(q // 4) % 3]}
+        yield {'k': 'latest', 'block': B, 'lb': a - B[2], 'ub': b - B[2], 'ctor': CTORS[(q + 1) % 4], 'bk': BKINDS[(q // 2) % 3]}
     # --- Events: merging
     yield {'k': 'combine', 'blocks': []}
+    yield {'k': 'combine', 'blocks': [], 'seq': 'tuple'}
+    two = [[[[1, 3]], 0, 5, 1000], [[[0, 6]], 5, 9, 1000]]
+    yield {'k': 'combine', 'blocks': two, 'fsmix': True}                       # 1000 (int) and 1000.0: the same rate
+    yield {'k': 'combine', 'blocks': [two[0], [[[0, 6]], 5, 9, 25]], 'tiny': True}   # rates differing in the last bit
+    yield {'k': 'combine', 'blocks': [two[0], [[[0, 6]], 5, 9, 25], two[1]], 'tiny': True, 'seq': 'tuple'}
     for _ in range(300 if quick else 5000):
         nb = rng.randint(1, 4)
         s = rng.randint(-10, 40)
@@ -209,7 +263,9 @@ def cases(tier, rng):
         elif nb > 2 and r < 0.45:
             bl[1][1] += 1
             bl[2][3] = 25
-        yield {'k': 'combine', 'blocks': bl}
+        q += 1
+        yield {'k': 'combine', 'blocks': bl, 'seq': ['list', 'tuple'][q % 2], 'ctor': CTORS[(q // 2) % 4],
+               'tiny': bool(q % 3 == 0), 'fsmix': bool(q % 5 == 0)}
     # --- Events: time-based range queries (get_range / get_latest) at rates where (k / fs) * fs != k occurs
     for c in _time_cases(tier, rng):
         yield c
@@ -253,10 +309,64 @@ def _canon_events(E, fs2=False):
     return [[[KINDS.get(n, -1), s] for n, s in zip(names, samples)], int(E.start), int(E.end), int(fkey)], ok
 
 
-def _mk_events(B, fs2=False):
+CTORS = ['tuples', 'lists', 'df', 'df_ts']        # what the Events constructor is given
+BKINDS = ['int', 'np64', 'float']                  # type of the query bounds
+
+
+def _mk_events(B, fs2=False, ctor='tuples', fs=None):
+    """-> Events, and whether a DataFrame handed to the constructor was left untouched"""
+    import pandas as pd
     P = _P()
     inv = {1: 'rising', 0: 'falling'}
-    return P.Events([(inv[k], s) for k, s in B[0]], B[1], B[2], B[3] / 2.0 if fs2 else float(B[3]))
+    rows = [(inv[k], s) for k, s in B[0]]
+    if fs is None:
+        fs = B[3] / 2.0 if fs2 else float(B[3])
+    intact = True
+    if ctor == 'lists':
+        arg = [list(r) for r in rows]
+    elif ctor in ('df', 'df_ts') and rows:
+        arg = pd.DataFrame({'event': [r[0] for r in rows], 'sample': [r[1] for r in rows]},
+                           index=list(range(len(rows) + 3, 3, -1)))
+        if ctor == 'df_ts':
+            arg['ts'] = -1.0                                 # a stale column: must be recomputed
+        before = arg.copy()
+    else:
+        arg = rows
+    E = P.Events(arg, B[1], B[2], fs)
+    if ctor in ('df', 'df_ts') and rows:
+        intact = list(arg.columns) == list(before.columns) and arg.equals(before)
+    elif ctor == 'lists':
+        intact = arg == [list(r) for r in rows]
+    return E, intact
+
+
+def _bound(v, kind):
+    return {'int': int(v), 'np64': np.int64(v), 'float': float(v)}[kind]
+
+
+def _props(E, P):
+    """range_samples, t0, rate(), str of one Events object"""
+    n, start, end, fs = len(E.events), E.start, E.end, E.fs
+    why = []
+    if E.range_samples != end - start:
+        why.append(f'range_samples {E.range_samples} != {end - start}')
+    if E.t0 != start / fs:
+        why.append(f't0 {E.t0} != {start / fs}')
+    if end != start and E.rate() != n / (end - start) * fs:
+        why.append(f'rate {E.rate()} != {n / (end - start) * fs}')
+    if f'n={n} between {start} and {end}' not in str(E) or str(E) not in repr(E):
+        why.append(f'str {str(E)!r}')
+    return why
+
+
+def _scribble(R):
+    """what a caller may do to an answer it received"""
+    R.events['sample'] = R.events['sample'] + 1000
+    R.events['event'] = 'x'
+    R.events.drop(R.events.index, inplace=True)
+    R.start -= 5
+    R.end += 5
+    R.fs = 1.0
 
 
 # ---- time-based queries (Events.get_range / get_latest): bounds are k / fs
@@ -283,6 +393,8 @@ def _time_cases(tier, rng):
         if not quick:
             picks += [rng.choice(qs) for _ in range(12)] + below[2:8]
         picks += [rng.randint(10, 5000)]                       # an ordinary k as well
+        qn = quirky(fs, -3000, -1)
+        picks += [k for k in qn if (k / fs) * fs > k][-1:] + qn[-1:]      # negative sample numbers (blocks of edges start at -m)
         for k0 in picks:
             evs = [[1, k0 - 2], [0, k0 - 1], [1, k0], [0, k0 + 1], [1, k0 + 3]]
             around = [k0 - 3, k0 - 1, k0, k0 + 1, k0 + 4]
@@ -301,6 +413,13 @@ def _time_cases(tier, rng):
                 for ka, kb in ((k0, bl[-1][2]), (k0 - 3, k0), (k0 - 3, bl[-1][2]), (k0, k0 + 1), (k0 - 1, k0 + 1),
                                (k0 + 1, k0 + 4), (k0, k0), (k0 - 4, k0), (k0, bl[-1][2] + 1)):
                     yield {'k': 'trange', 'blocks': bl, 'ka': ka, 'kb': kb}
+        # off-grid times: (k + d) / fs, ties included (fs = 1024 makes them exact)
+        for fso in (fs2, 2048):
+            k0 = picks[0] if fso == fs2 else 40
+            B = [[[1, k0 - 1], [0, k0], [1, k0 + 1], [0, k0 + 2]], k0 - 2, k0 + 4, fso]
+            for da in (0.0, 0.25, 0.49, 0.5, 0.51, 0.75):
+                for ka, kb, db in ((k0, k0 + 2, 0.0), (k0 - 1, k0 + 1, da), (k0 - 2, k0 + 3, 0.5), (k0 + 1, k0 + 1, 1.0 - da)):
+                    yield {'k': 'trange', 'blocks': [B], 'ka': ka, 'kb': kb, 'da': da, 'db': db}
         # get_latest: offsets relative to the end of the block, quirky negative offsets included
         qneg = quirky(fs, -400, 0)
         offs = sorted(set([-6, -5, -3, -2, -1, 0] + qneg[-3:] + ([rng.choice(qneg)] if qneg else [])))
@@ -315,31 +434,56 @@ def _time_cases(tier, rng):
 
 
 def _array(bits, dtype, rng_i):
+    """the chunk as the caller would hold it: any non-zero value is a logical high"""
+    b = np.array(bits, dtype=int)
     if dtype == 'bool':
-        return np.array(bits, dtype=bool)
+        return b.astype(bool)
     if dtype == 'int':
-        return np.array(bits, dtype=int) * (1 + rng_i % 3)
-    return np.array(bits, dtype=float) * (-2.5 if rng_i % 2 else 0.125)
+        return b * (1 + rng_i % 3)
+    if dtype == 'uint8':
+        return (b * [255, 2, 1][rng_i % 3]).astype(np.uint8)
+    if dtype == 'int8':
+        return (b * -1).astype(np.int8)
+    if dtype == 'floatodd':
+        hi = [np.nan, 1e-300, -3.0, np.inf, 5e-324]
+        lo = [0.0, -0.0]
+        return np.array([hi[(rng_i + k) % 5] if v else lo[(rng_i + k) % 2] for k, v in enumerate(bits)], dtype=float)
+    return b.astype(float) * (-2.5 if rng_i % 2 else 0.125)
+
+
+def _init_value(case):
+    kind = (HIGHS if case['init'] else LOWS)[case.get('ik', 0) % (6 if case['init'] else 5)]
+    if kind == 'npbool':
+        return np.bool_(bool(case['init']))
+    if kind == 'npu8':
+        return np.uint8(0)
+    return {'False': False, '0': 0, '0.0': 0.0, 'True': True, '1': 1, '2': 2, '1.5': 1.5, '-1': -1}[kind]
 
 
 def _chunks_for_model(case):
-    """[(annotation or None, bits)] exactly as the chunks are handed to the coroutine"""
+    """[(annotation for the model or None, bits, real fs)] exactly as the chunks are handed to the coroutine"""
     out = []
     s0 = case['first']
     g = case.get('glitch') or {}
     pd = case['form'].startswith('pd')
+    fs = case['fs']
     for j, bits in enumerate(case['chunks']):
-        ann = [s0, case['fs']] if pd else None
+        ann = [s0, fskey(fs)] if pd else None
+        real = float(fs)
         if g.get('idx') == j:
             if g['kind'] == 's0':
-                ann = [s0 + 1, case['fs']]
+                ann = [s0 + 1, fskey(fs)]
             elif g['kind'] == 'fs':
-                ann = [s0, case['fs'] + 1]
+                ann = [s0, fskey(fs + 1)]
+                real = float(fs + 1)
+            elif g['kind'] == 'fs_ulp':                      # a rate that differs in the last bit only
+                ann = [s0, fskey(fs) + 1]
+                real = float(np.nextafter(float(fs), 1e9))
             elif g['kind'] == 'plain':
                 ann = None
             elif g['kind'] == 'pd':
-                ann = [s0, case['fs']]
-        out.append([ann, bits])
+                ann = [s0, fskey(fs)]
+        out.append([ann, bits, real])
         s0 += len(bits)
     return out
 
@@ -347,32 +491,81 @@ def _chunks_for_model(case):
 def impl(case):
     warnings.simplefilter('ignore')
     P = _P()
+    if case['k'] == 'ndim':
+        got = []
+        try:
+            co = P.edges(2, got.append, fs=1000.0)
+            co.send(np.zeros(case['shape']))
+            return {'raised_value_error': False, 'n': len(got)}
+        except ValueError:
+            return {'raised_value_error': True, 'n': len(got)}
+    if case['k'] == 'nofs':
+        E = P.Events([], 0, 5, None)
+        out = {}
+        for name, call in (('get_range', lambda: E.get_range(0.0, 0.001)), ('get_latest', lambda: E.get_latest(-0.001))):
+            try:
+                call()
+                out[name] = 'returned'
+            except ValueError:
+                out[name] = 'ValueError'
+        R = E.get_range_samples(1, 3)
+        out['samples'] = [len(R.events), R.start, R.end, R.fs]
+        return out
     if case['k'] == 'edges':
         got = []
         pd = case['form'].startswith('pd')
-        kw = {'initial_state': bool(case['init']) if case['dtype'] == 'bool' else case['init'], 'detect': case['detect']}
+        kw = {'initial_state': _init_value(case), 'detect': case['detect']}
         if pd:
             kw['fs'] = 'auto' if case['m'] % 2 else 7.0      # ignored for annotated input
         else:
-            kw['fs'] = float(case['fs'])
-        res = {'ok': True, 'err': None}
+            fsk = case.get('fsk', 'float')
+            fs = case['fs']
+            kw['fs'] = float(fs) if (fsk == 'float' or fs != int(fs)) else (int(fs) if fsk == 'int' else np.float64(fs))
+        m = case['m']
+        m = {'int': m, 'np64': np.int64(m), 'np32': np.int32(m)}[case.get('mk', 'int')]
+        tgt = case.get('tgt', 'append')
+        if tgt == 'send':
+            @P.coroutine
+            def sink():
+                while True:
+                    got.append((yield))
+            target = sink().send
+        elif tgt == 'func':
+            target = lambda ev: got.append(ev)
+        else:
+            target = got.append
+        res = {'ok': True, 'err': None, 'input_intact': True}
+        bufmode = case.get('buf', 'fresh')
+        buf = None
         try:
-            co = P.edges(case['m'], got.append, **kw)
-            for j, (ann, bits) in enumerate(_chunks_for_model(case)):
+            co = P.edges(m, target, **kw)
+            for j, (ann, bits, real_fs) in enumerate(_chunks_for_model(case)):
                 a = _array(bits, case['dtype'], j)
+                if bufmode == 'reuse':
+                    if buf is None or buf.dtype != a.dtype or len(buf) < len(a):
+                        buf = np.zeros(max(len(a), 16), dtype=a.dtype)
+                    buf[:len(a)] = a
+                    a = buf[:len(a)]
+                elif bufmode == 'readonly':
+                    a.setflags(write=False)
+                keep = a.copy()
                 two_d = case['form'] in ('pd', 'plain2d') or (ann is not None and not pd)
-                if two_d:
-                    a = a[np.newaxis, :]
+                x = a[np.newaxis, :] if two_d else a
                 if ann is not None:
-                    a = P.PipelineData(a, fs=float(ann[1]), s0=ann[0], channel=(['ch'] if two_d else 'c'),
+                    s0 = ann[0] if case.get('s0k', 'int') == 'int' else np.int64(ann[0])
+                    x = P.PipelineData(x, fs=real_fs, s0=s0, channel=(['ch'] if two_d else 'c'),
                                        metadata={'tag': 1})
-                co.send(a)
+                co.send(x)
+                if not np.array_equal(a, keep, equal_nan=(a.dtype.kind == 'f')):
+                    res['input_intact'] = False
+                if bufmode == 'reuse':
+                    buf[:] = (buf == 0)                      # the caller overwrites its buffer
         except ValueError as e:
             res['ok'] = False
             res['err'] = str(e)[:120]
         blocks, ts_ok = [], True
         for E in got:
-            b, ok = _canon_events(E)
+            b, ok = _canon_events(E, fs2=True)
             blocks.append(b)
             ts_ok = ts_ok and ok and isinstance(E, P.Events)
         res['blocks'] = blocks
@@ -381,32 +574,51 @@ def impl(case):
         res['combine_err'] = None
         if got:
             try:
-                cb, ok = _canon_events(P.combine_events(got))
+                cb, ok = _canon_events(P.combine_events(got), fs2=True)
                 res['combined'] = cb
                 res['ts_ok'] = res['ts_ok'] and ok
             except ValueError as e:
                 res['combine_err'] = str(e)[:120]
         return res
     if case['k'] in ('range', 'latest'):
-        E = _mk_events(case['block'])
-        try:
+        E, intact = _mk_events(case['block'], ctor=case.get('ctor', 'tuples'))
+        bk = case.get('bk', 'int')
+        orig, ok0 = _canon_events(E)
+
+        def call():
             if case['k'] == 'range':
-                R = E.get_range_samples(case['a'], case['b'])
-            elif case['ub'] is None:
-                R = E.get_latest_samples(case['lb'])
-            else:
-                R = E.get_latest_samples(case['lb'], case['ub'])
+                return E.get_range_samples(_bound(case['a'], bk), _bound(case['b'], bk))
+            if case['ub'] is None:
+                return E.get_latest_samples(_bound(case['lb'], bk))
+            return E.get_latest_samples(_bound(case['lb'], bk), _bound(case['ub'], bk))
+        out = {'alias_ok': intact, 'alias_why': None if intact else 'the constructor changed the data it was given',
+               'props_ok': True}
+        why = _props(E, P)
+        try:
+            R = call()
         except ValueError as e:
-            return {'block': None, 'ts_ok': True, 'err': str(e)[:80]}
-        b, ok = _canon_events(R)
-        return {'block': b, 'ts_ok': ok}
+            out.update(block=None, ts_ok=ok0, err=str(e)[:80])
+            R = None
+        if R is not None:
+            b, ok = _canon_events(R)
+            why += _props(R, P)
+            out.update(block=b, ts_ok=ok and ok0)
+            _scribble(R)                                    # the caller writes into the answer ...
+            b2, _ = _canon_events(call())                    # ... and asks again
+            now, _ = _canon_events(E)
+            if b2 != b or now != orig or R is E:
+                out.update(alias_ok=False, alias_why=f'after the caller changed the answer: block {now} (was {orig}), '
+                                                     f'same query gives {b2} (was {b})')
+        if why:
+            out.update(props_ok=False, props_why='; '.join(why))
+        return out
     if case['k'] in ('trange', 'tlatest'):
-        bl = [_mk_events(B, fs2=True) for B in case['blocks']]
+        bl = [_mk_events(B, fs2=True)[0] for B in case['blocks']]
         fs = bl[0].fs
         E = bl[0] if len(bl) == 1 else P.combine_events(bl)
         merged, mok = _canon_events(E, fs2=True)
         if case['k'] == 'trange':
-            ta, tb = case['ka'] / fs, case['kb'] / fs
+            ta, tb = (case['ka'] + case.get('da', 0.0)) / fs, (case['kb'] + case.get('db', 0.0)) / fs
             eff = [_eff(ta, fs), _eff(tb, fs)]
             call = lambda: E.get_range(ta, tb)
         else:
@@ -421,16 +633,42 @@ def impl(case):
         b, ok = _canon_events(R, fs2=True)
         return {'block': b, 'ts_ok': ok and mok, 'merged': merged, 'eff': eff}
     if case['k'] == 'combine':
-        bl = [_mk_events(B) for B in case['blocks']]
+        tiny = float(np.nextafter(1000.0, 2000.0))
+        bl, intact = [], True
+        for j, B in enumerate(case['blocks']):
+            fs = None
+            if case.get('tiny') and B[3] == 25:
+                fs = tiny                                    # model key 25 stands for a rate one ulp above 1000.0
+            elif case.get('fsmix') and B[3] == 1000 and j % 2 == 0:
+                fs = 1000                                    # an int-typed rate equal to 1000.0
+            E, ok = _mk_events(B, ctor=case.get('ctor', 'tuples'), fs=fs)
+            bl.append(E)
+            intact = intact and ok
+        origs = [_canon_events(E)[0] if float(E.fs) == int(E.fs) else None for E in bl]
+        seq = tuple(bl) if case.get('seq') == 'tuple' else bl
+        out = {'alias_ok': intact, 'alias_why': None if intact else 'the constructor changed the data it was given',
+               'props_ok': True}
         try:
-            R = P.combine_events(bl)
+            R = P.combine_events(seq)
         except IndexError:
-            return {'code': 1, 'block': None, 'ts_ok': True}
+            out.update(code=1, block=None, ts_ok=True)
+            return out
         except ValueError as e:
             code = 2 if 'not aligned' in str(e) else (3 if 'sampling rates' in str(e) else 9)
-            return {'code': code, 'block': None, 'ts_ok': True}
+            out.update(code=code, block=None, ts_ok=True)
+            return out
         b, ok = _canon_events(R)
-        return {'code': 0, 'block': b, 'ts_ok': ok}
+        why = _props(R, P)
+        out.update(code=0, block=b, ts_ok=ok)
+        _scribble(R)
+        b2, _ = _canon_events(P.combine_events(seq))
+        now = [_canon_events(E)[0] for E in bl]
+        if b2 != b or now != origs or any(R is E for E in bl):
+            out.update(alias_ok=False, alias_why=f'after the caller changed the merged block: inputs {now} (were {origs}), '
+                                                 f'merging again gives {b2} (was {b})')
+        if why:
+            out.update(props_ok=False, props_why='; '.join(why))
+        return out
     raise KeyError(case['k'])
 
 
@@ -444,9 +682,11 @@ def _annlit(a):
 
 
 def term(case, res):
+    if case['k'] in ('ndim', 'nofs'):
+        return 'true'                                     # judged by the oracle only (not modelled)
     if case['k'] == 'edges':
-        chunks = listlit([f'({_annlit(a)}, {blist(b)})' for a, b in _chunks_for_model(case)])
-        fs_arg = case['fs'] if not case['form'].startswith('pd') else 0
+        chunks = listlit([f'({_annlit(a)}, {blist(b)})' for a, b, _ in _chunks_for_model(case)])
+        fs_arg = fskey(case['fs']) if not case['form'].startswith('pd') else 0
         t = (f"check_edges {DETECT[case['detect']]} {zlit(case['m'])} {blit(case['init'])} {zlit(fs_arg)} {chunks} "
              f"{listlit([_blocklit(b) for b in res['blocks']])} {blit(res['ok'])}")
         if res['combined'] is not None:
@@ -475,6 +715,8 @@ def term(case, res):
 def nontrivial(case, res):
     if not isinstance(res, dict) or 'raised' in res:      # the driver's record of an unexpected exception
         return False
+    if case['k'] in ('ndim', 'nofs'):
+        return True
     if case['k'] == 'edges':
         return any(b[0] for b in res['blocks'])
     return bool(res.get('block') and res['block'][0])
@@ -483,8 +725,21 @@ def nontrivial(case, res):
 # ----------------------------------------------------------------------------
 def oracle(case, res):
     """The property, judged on what the implementation returned."""
+    if case['k'] == 'ndim':
+        ok = res['raised_value_error'] and res['n'] == 0
+        return None if ok else f'edges accepted {case["shape"]}-shaped input: {res}'
+    if case['k'] == 'nofs':
+        if res['get_range'] != 'ValueError' or res['get_latest'] != 'ValueError' or res['samples'] != [0, 1, 3, None]:
+            return f'Events without a rate: seconds-based queries must raise ValueError, sample-based ones work: {res}'
+        return None
     if not res.get('ts_ok', True):
         return 'an Events object has a wrong ts column (ts != sample / fs), unknown event names or non-integer fields'
+    if not res.get('input_intact', True):
+        return 'edges modified the array the caller sent'
+    if not res.get('alias_ok', True):
+        return f"aliasing: {res.get('alias_why')}"
+    if not res.get('props_ok', True):
+        return f"Events properties: {res.get('props_why')}"
     if case['k'] == 'edges':
         if res.get('combine_err'):
             return f"the blocks emitted by edges cannot be merged: {res['combine_err']}"
@@ -502,8 +757,8 @@ def oracle(case, res):
         for b, c in zip(blocks, chunks):
             if b[1] != pos or b[2] != pos + len(c):
                 return f'blocks do not tile: block {b[1:3]}, expected {[pos, pos + len(c)]}'
-            if b[3] != case['fs']:
-                return f'block has fs {b[3]}, expected {case["fs"]}'
+            if b[3] != fskey(case['fs']):
+                return f'block has 2*fs = {b[3]}, expected {fskey(case["fs"])}'
             pos += len(c)
         if blocks and res['combined'] is not None:
             cb = res['combined']
@@ -539,7 +794,12 @@ def oracle(case, res):
         start, end, fs2 = bl[0][1], bl[-1][2], bl[0][3]
         fs = fs2 / 2.0
         # the bounds are the times k / fs: the query is over the samples round(t * fs) = k
-        if case['k'] == 'trange':
+        if case['k'] == 'trange' and ('da' in case):
+            # off-grid times: the sample is the nearest integer (ties to even, as round() does)
+            a = round(((case['ka'] + case['da']) / fs) * fs)
+            b = round(((case['kb'] + case['db']) / fs) * fs)
+            want_ab = (a, b)
+        elif case['k'] == 'trange':
             a, b = round((case['ka'] / fs) * fs), round((case['kb'] / fs) * fs)
             want_ab = (case['ka'], case['kb'])
         else:
@@ -605,6 +865,17 @@ def distribution(cases, results):
             e.setdefault('detect', {})
             e['detect'][c['detect']] = e['detect'].get(c['detect'], 0) + 1
             e['errors'] = e.get('errors', 0) + int(not r['ok'])
+            for fld in ('dtype', 'mk', 'fsk', 'tgt', 'buf', 's0k', 'fs', 'first'):
+                dd = e.setdefault(fld, {})
+                key = str(c.get(fld))
+                dd[key] = dd.get(key, 0) + 1
+            e['empty_chunks'] = e.get('empty_chunks', 0) + sum(1 for ch in c['chunks'] if not ch)
+        elif k in ('ndim', 'nofs'):
+            pass
         else:
             e['refused'] = e.get('refused', 0) + int(r.get('block') is None)
+            for fld in ('ctor', 'bk', 'seq'):
+                if fld in c:
+                    dd = e.setdefault(fld, {})
+                    dd[c[fld]] = dd.get(c[fld], 0) + 1
     return d
